@@ -272,6 +272,7 @@ DEEP = [
     ('k', dict(macros=['o'], envs=['p'], specials=[], argless=[]), ['bracket', 'group']),
     ('default', dict(macros=['section', 'textbf'], envs=[], specials=[], argless=[]), ['bracket', 'group']),
     ('default', dict(macros=['item', 'sqrt'], envs=['itemize'], specials=[], argless=[]), ['bracket', 'math']),
+    ('default', dict(macros=['text', 'ensuremath'], envs=['equation'], specials=[], argless=[]), ['math', 'display', 'textinmath']),
 ]
 
 
